@@ -204,6 +204,7 @@ theorem solve_almost_infeasible_verdict {S : Solver α} {st : Settings α} {r : 
   unfold Solver.solve at hr
   obtain ⟨L, hL, hr⟩ := bind_ok_inv hr
   obtain ⟨q, hq, hr⟩ := bind_ok_inv hr
+  obtain ⟨dN, hdN, hr⟩ := bind_ok_inv hr
   cases hr
   unfold finish at hq
   obtain ⟨u, hu, hq⟩ := bind_ok_inv hq
@@ -273,6 +274,7 @@ theorem solve_almost_solved_verdict {S : Solver α} {st : Settings α} {r : Solv
   unfold Solver.solve at hr
   obtain ⟨L, hL, hr⟩ := bind_ok_inv hr
   obtain ⟨q, hq, hr⟩ := bind_ok_inv hr
+  obtain ⟨dN, hdN, hr⟩ := bind_ok_inv hr
   cases hr
   unfold finish at hq
   obtain ⟨u, hu, hq⟩ := bind_ok_inv hq
